@@ -48,7 +48,10 @@ def u32(n):
 
 
 SYN_MSGS = ['battery 100%% full', '%%', 'a %% b %% c', 'caf\u00e9 %u \u4e2d', 'I> value = %u', 'E> Dev 0x%x: Fail count = %d', 'Cmd Data: 0x%08X', 'no args here', '%c%c%c', '%d %d %d %d %d',
-            '%d %d %d %d %d %d', '100%% sure %u', 'bad %', 'x=%.4X y=%02u', '%s and %i']
+            '%d %d %d %d %d %d', '100%% sure %u', 'bad %', 'x=%.4X y=%02u', '%s and %i',
+            # characters that some text functions take for line ends or blanks - a line of the file ends at \n only
+            'form\x0cfeed %u', 'unit\x1fsep\x1eand\x1dgroup', 'next\x85line %x', 'ls\u2028and ps\u2029 %d', 'vt\x0bhere',
+            'tab\there %u', 'nbsp\xa0here']
 
 
 # a few hash values that come back in many string files (with another text, only as a partial match, or
@@ -172,7 +175,17 @@ def run_case(case):
                 f.write(drawer.render_string_file(rng, strings))
             label = 'synthetic'
         data = build(rng, strings, k)
-        lines = parse_trace_data(memoryview(bytes(data)), path)
+        if label != 'synthetic' and (k // 20) % 2 and data:
+            # through the I/O drawer plug-in, which picks the string file by section version (the two drawer types
+            # take turns in one process)
+            import json
+            import udparsers.m2c00.m2c00 as plug
+            out = json.loads(plug.parseUDToJson(84, {'mexStringFile': 1, 'nimitzStringFile': 2}[label], memoryview(bytes(data))))
+            lines = out.get('Trace') if isinstance(out, dict) and 'Error' not in out else None
+            if not isinstance(lines, list):
+                lines = ['the plug-in returned no Trace lines: %s' % str(out)[:150]]
+        else:
+            lines = parse_trace_data(memoryview(bytes(data)), path)
         if label == 'synthetic':
             os.remove(path)
         rec = dict(family='C15', shape_ok=True, label=label, data=data,
